@@ -68,7 +68,7 @@ func (c17Stream) Impl(c Case) string {
 	p := kv(c.Line)
 	tlsConfigs()
 	tr := NewTracer()
-	gldap.VerifHook = tr.Hook
+	curTracer.Store(tr)
 	srv, err := gldap.NewServer(gldap.WithLogger(hclog.NewNullLogger()))
 	if err != nil {
 		return "harness-error " + err.Error()
@@ -256,7 +256,7 @@ func (c12Stream) Impl(c Case) string {
 	}
 	if p["kind"] == "stopBeforeRun" {
 		tr := NewTracer()
-		gldap.VerifHook = tr.Hook
+		curTracer.Store(tr)
 		srv, _ := gldap.NewServer(gldap.WithLogger(hclog.NewNullLogger()))
 		addr := freeAddr()
 		_ = srv.Stop()
